@@ -49,6 +49,14 @@ def main():
         with open(p, "wb") as f:
             f.write(bytes([rng.randrange(256) if i % 2 else 0, rng.randrange(256) if i % 2 else 0]) + data)
         sfiles.append(p)
+    # hand-written structural seeds (comment kinds at the start / end of the input)
+    for i, txt in enumerate([b"// c\n//!< d", b"/* a */ //!< b\nx", b"//!< d", b"/*!< a */ x //! y\n/** z */",
+                             b"\"a\" \"b\" 'c' 1.e-3f 0x1F ->* a::b", b"#include <x>\n#define A \\\n 1\nR\"(raw)\""]):
+        for bits in (b"\x00\x00", b"\x01\x00", b"\x03\x10"):
+            p = os.path.join(sdir, "h%02d_%s" % (i, bits.hex()))
+            with open(p, "wb") as f:
+                f.write(bits + txt)
+            sfiles.append(p)
     dpath = os.path.join(WORK, "dict.txt")
     with open(dpath, "w") as f:
         for k in ['"/*"', '"*/"', '"//"', '"\\""', '"\'"', '"\\\\"', '"#"', '"->"', '"::"', '"<<"', '"R\\"("',
